@@ -711,11 +711,9 @@ def runHandler (hk : Key) (it : QItem) (loc : Loc) : M Bool := do
       | _ => owned ← runAct hk it loc act
   pure owned
 
-def reverseTail (q : List QItem) (n : Nat) : List QItem := q.take n ++ (q.drop n).reverse
-
-/-- the unwinding path: `EventDropper::drop` -/
-def eventDropperDrop (it : QItem) (owned : Bool) : M Unit := do
-  if !owned then dropEvent it
+/-- the unwinding path, second half of `EventDropper::drop`: every queued event is dropped through the drop
+    function registered for its type, then the queue is cleared -/
+def dropQueued : M Unit := do
   for q in (← get).queue do
     let w ← get
     if q.ty.targeted then
@@ -728,7 +726,9 @@ def eventDropperDrop (it : QItem) (owned : Bool) : M Unit := do
       | some (_, ei) => if ei.needsDrop then dropEvent q
   modify fun w => { w with queue := [] }
 
-/-- one iteration of the `while let Some(item) = self.event_queue.pop()` loop -/
+/-- One iteration of the `while let Some(item) = self.event_queue.pop()` loop, run with the rest of the queue set
+    aside (`flushWith`): whatever the handlers send lands on an empty segment, which is reversed in place once the
+    handler loop is over ("Reverse pushed events so they're handled in FIFO order"). -/
 def deliverOne (it : QItem) : M Unit := do
   let w ← get
   let (info, hs, loc) ← (do
@@ -748,17 +748,18 @@ def deliverOne (it : QItem) : M Unit := do
     -- the target does not exist: drop the event, skip it
     if info.needsDrop then dropEvent it
   | some hs =>
-    let before := (← get).queue.length
     let mut owned := false
     for hk in hs do
       if !owned then
         let r ← tryCatch (runHandler hk it loc) fun e => do
+          -- `EventDropper::drop`, first half: the in-flight event is dropped unless a handler owns it. A handler
+          -- stops at `take`, so an unwinding handler never owns the event.
           match e with
-          | .panic _ => eventDropperDrop it false
+          | .panic _ => if info.needsDrop then dropEvent it
           | _ => pure ()
           throw e
         owned := r
-    modify fun w => { w with queue := reverseTail w.queue before }
+    modify fun w => { w with queue := w.queue.reverse }
     if owned then return
     match info.kind with
     | .normal => if info.needsDrop then dropEvent it
@@ -775,19 +776,28 @@ def deliverOne (it : QItem) : M Unit := do
       removeEntity loc
       resRefresh
 
-/-- `flush_event_queue` -/
-def flush : Nat → M Unit
+/-- `flush_event_queue`, generic in the per-event step: pop the top of the stack, run `deliver` on an empty segment,
+    put the segment it leaves (already in pop order) on top of the rest. When `deliver` unwinds with a panic, the
+    guard drops everything still queued. On return the arena is reset (`self.bump.reset()`). -/
+def flushWith (deliver : QItem → M Unit) : Nat → M Unit
   | 0 => throw (.panic "model:fuel")
   | fuel + 1 => do
     let w ← get
     match w.queue.getLast? with
-    | none =>
-      -- `self.bump.reset()`
-      set { w with arenaEpoch := w.arenaEpoch + 1 }
+    | none => set { w with arenaEpoch := w.arenaEpoch + 1 }
     | some it =>
-      set { w with queue := w.queue.dropLast }
-      deliverOne it
-      flush fuel
+      let rest := w.queue.dropLast
+      set { w with queue := [] }
+      tryCatch (deliver it) fun e => do
+        modify fun w => { w with queue := rest ++ w.queue }
+        match e with
+        | .panic _ => dropQueued
+        | _ => pure ()
+        throw e
+      modify fun w => { w with queue := rest ++ w.queue }
+      flushWith deliver fuel
+
+def flush (fuel : Nat) : M Unit := flushWith deliverOne fuel
 
 def FUEL : Nat := 100000
 
